@@ -123,14 +123,35 @@ def check_refusals(case):
             V.new_version(obj, modified=supplied)
             return ('refusal#supplied modified must be strictly later', f'{kind}: modified={supplied!r} (equal to the current one) accepted', {})
         except E.InvalidValueError: pass
+    # a caller-supplied modified given as a datetime in another zone is judged (and applied) as the instant it denotes
+    import stix2.utils as SU
+    old_us = modified_us(obj)
+    for off_h in (-5, 5, 14):
+        tz = dtm.timezone(dtm.timedelta(hours=off_h))
+        later = (dtm.datetime(1, 1, 1, tzinfo=UTC) + dtm.timedelta(microseconds=old_us + 60 * 10**6)).astimezone(tz)          # one minute later, local wall clock hours away
+        earlier = (dtm.datetime(1, 1, 1, tzinfo=UTC) + dtm.timedelta(microseconds=old_us - 60 * 10**6)).astimezone(tz)
+        try:
+            nv = V.new_version(obj, modified=later)
+            if modified_us(nv) // 1000 != (old_us + 60 * 10**6) // 1000:
+                return ('exact#supplied modified applied as the instant it denotes', f'{kind}: modified={later.isoformat()} was applied as {nv["modified"]}', {})
+        except E.InvalidValueError:
+            return ('refusal#later supplied modified accepted', f'{kind}: modified={later.isoformat()} (one minute later than the current one) was refused', {})
+        try:
+            V.new_version(obj, modified=earlier)
+            return ('refusal#supplied modified must be strictly later', f'{kind}: modified={earlier.isoformat()} (one minute EARLIER than the current one, in UTC{off_h:+d}) accepted', {})
+        except E.InvalidValueError: pass
     try:
         r = V.revoke(obj)
     except E.STIXError as ex:
         return ('refusal#revoke works once', f'{kind}: first revoke refused: {ex}', {})
-    for op in (lambda: V.revoke(r), lambda: V.new_version(r, name='z')):
-        try:
-            op(); return ('refusal#revoked objects are frozen', f'{kind}: operation on a revoked object accepted', {})
-        except E.RevokeError: pass
+    import stix2.markings as MKS
+    rd = json.loads(r.serialize()) if hasattr(r, 'serialize') else dict(r)        # the revoked version as a plain dictionary too
+    for target in (r, rd):
+        for op in (lambda: V.revoke(target), lambda: V.new_version(target, name='z'), lambda: V.new_version(target, revoked=False),
+                   lambda: MKS.add_markings(target, 'marking-definition--613f2e26-407d-48c7-9eca-b8e91df99dc9', None)):
+            try:
+                op(); return ('refusal#revoked objects are frozen', f'{kind}: operation on a revoked {"dictionary" if target is rd else "object"} accepted', {})
+            except E.RevokeError: pass
     return None
 
 
